@@ -66,12 +66,13 @@ def cases(tier, seed):
             for mask in masks:
                 for ztype, variant in itertools.product(
                         ("num", "str"),
-                        ("z", "multi", "yerr", "c", "grid", "xvar")):
+                        ("z", "multi", "yerr", "c", "grid", "xvar",
+                         "xvar2d")):
                     j += 1
                     hk = [kind, nx, nz, mask, ztype, variant]
                     if tier == "quick" and core.pick(hk + ["thin"], 4):
                         continue
-                    if variant == "multi" and ztype == "str":
+                    if variant in ("multi", "xvar2d") and ztype == "str":
                         continue
                     inf = core.pick(hk + ["inf"], 5) == 0
                     for t in range(1 if tier == "quick" else 3):
@@ -90,6 +91,9 @@ def cases(tier, seed):
                         if variant == "multi" and o.get("colors") is True:
                             # (no z coordinate / c variable to map from)
                             o = {}
+                        if variant == "xvar2d":
+                            o = {k: v for k, v in o.items()
+                                 if k in ("markers", "lines", "xlog", "ylog")}
                         if variant == "c" and "colors" in o:
                             o = {k: v for k, v in o.items() if k != "colors"}
                         yield {"kind": kind, "nx": nx, "nz": nz, "mask": mask,
@@ -308,6 +312,33 @@ def check_lines(case):
 
     fn = getattr(xyz, kind)
     kw = dict(opts)
+    if variant == "xvar2d":
+        # nothing to iterate over: x and y are two 2-d variables over the same
+        # dimensions (stored in different orders); one series of all points
+        fig, err = call_plot(key, fn, ds, "xv", "y")
+        if err:
+            return fin(case, [err])
+        if not ds.identical(before):
+            vio.append((key("dataset-modified"), "plotting changed the "
+                        "dataset"))
+        ax = data_axes(fig)[0]
+        if kind == "lineplot":
+            got = [np.column_stack([a.get_xdata(), a.get_ydata()])
+                   for a in ax.lines if len(a.get_xdata())]
+        else:
+            got = [np.asarray(a.get_offsets()).reshape(-1, 2)
+                   for a in ax.collections]
+        got = np.concatenate(got) if got else np.empty((0, 2))
+        canon = [d_ for d_ in ("x", "z") if d_ in before["y"].dims]
+        yv = before["y"].transpose(*canon).values.ravel()
+        xv_ = before["xv"].transpose(*canon).values.ravel()
+        ok = np.isfinite(yv) & np.isfinite(xv_)
+        want = sorted(zip(xv_[ok].tolist(), yv[ok].tolist()))
+        if sorted(map(tuple, got.tolist())) != want:
+            vio.append((key("points"), "drawn points %r are not the (x, y) "
+                        "pairs of the dataset %r" % (
+                            sorted(map(tuple, got.tolist()))[:4], want[:4])))
+        return fin(case, vio, len(want) >= 2)
     if variant == "multi":
         args = (ds, "x", tuple("y%d" % v for v in range(nz)))
         labels = ["y%d" % v for v in range(nz)]
